@@ -278,6 +278,9 @@ def reDeterministic : List ReGroup → Bool
 
 theorem atom_re_deterministic : reDeterministic atomRe = true := by decide +kernel
 
+/-- the ring-closure digit class of `_tokenize` is exactly the ASCII digits (what `digitsToNat` assumes) -/
+theorem digit_chars_are_ascii : digitChars = [48, 49, 50, 51, 52, 53, 54, 55, 56, 57] := by decide
+
 /-- the bond symbols `_tokenize` dispatches on are exactly the keys of `replace_dict` (no KeyError) -/
 theorem bond_chars_are_keys : ∀ c ∈ bondChars, (lookupNat c replaceDict).isSome = true := by decide
 
